@@ -17,11 +17,11 @@ R == INSTANCE Regex WITH Canon <- CanonTab, Orbit <- OrbitTab
 
 Subjects == Trace[2].list
 
-VARIABLES l, done
-vars == <<l, done>>
-Init == l = 3 /\ done = FALSE
+VARIABLES done
+vars == <<done>>
+Init == done = FALSE
 
-Reject(why, exp) == PrintT(<<"REJECTED", ToJson([line |-> l, why |-> why, expected |-> exp])>>)
+Reject(l, why, exp) == PrintT(<<"REJECTED", ToJson([line |-> l, why |-> why, expected |-> exp])>>)
 
 \* expected first match per subject as <<start, end>> or <<-1, -1>>
 Expected(ast) == [k \in 1..Len(Subjects) |->
@@ -32,21 +32,22 @@ FirstDiff(a, b) == IF Len(a) # Len(b) THEN 0
                    ELSE IF \E k \in 1..Len(a) : a[k] # b[k] THEN CHOOSE k \in 1..Len(a) : a[k] # b[k] /\ \A j \in 1..(k - 1) : a[j] = b[j]
                    ELSE -1
 
-Check(e) ==
+Check(e, l) ==
   LET exp == Expected(e.ast)
       d0 == FirstDiff(exp, e.r0)
       da == FirstDiff(ExpectedAll(e.ast), e.all0)
       d1 == IF e.print_ok THEN FirstDiff(exp, e.r1) ELSE -1
       d2 == IF e.opt_ok THEN FirstDiff(exp, e.r2) ELSE -1
-  IN /\ (d0 # -1 => Reject("oracle:first", [subject |-> d0, exp |-> IF d0 > 0 THEN exp[d0] ELSE <<>>]))
-     /\ (da # -1 => Reject("oracle:all", [subject |-> da, exp |-> IF da > 0 THEN ExpectedAll(e.ast)[da] ELSE <<>>]))
-     /\ (~e.print_ok => Reject("print:invalid", [subject |-> 0, exp |-> <<>>]))
-     /\ (~e.opt_ok => Reject("optimize:invalid", [subject |-> 0, exp |-> <<>>]))
-     /\ (d1 # -1 => Reject("print:language", [subject |-> d1, exp |-> IF d1 > 0 THEN exp[d1] ELSE <<>>]))
-     /\ (d2 # -1 => Reject("optimize:language", [subject |-> d2, exp |-> IF d2 > 0 THEN exp[d2] ELSE <<>>]))
+  IN /\ (d0 # -1 => Reject(l, "oracle:first", [subject |-> d0, exp |-> IF d0 > 0 THEN exp[d0] ELSE <<>>]))
+     /\ (da # -1 => Reject(l, "oracle:all", [subject |-> da, exp |-> IF da > 0 THEN ExpectedAll(e.ast)[da] ELSE <<>>]))
+     /\ (~e.print_ok => Reject(l, "print:invalid", [subject |-> 0, exp |-> <<>>]))
+     /\ (~e.opt_ok => Reject(l, "optimize:invalid", [subject |-> 0, exp |-> <<>>]))
+     /\ (d1 # -1 => Reject(l, "print:language", [subject |-> d1, exp |-> IF d1 > 0 THEN exp[d1] ELSE <<>>]))
+     /\ (d2 # -1 => Reject(l, "optimize:language", [subject |-> d2, exp |-> IF d2 > 0 THEN exp[d2] ELSE <<>>]))
 
-Step == l <= Len(Trace) /\ Check(Trace[l]) /\ l' = l + 1 /\ UNCHANGED done
-Done == l = Len(Trace) + 1 /\ ~done /\ done' = TRUE /\ PrintT(<<"ACCEPTED", l - 1>>) /\ UNCHANGED l
-Next == Step \/ Done
+\* evaluated at constant level (ASSUME): TLC caches LET definitions only outside actions
+ASSUME \A i \in 3..Len(Trace) : LET e == Trace[i] IN Check(e, i)
+Done == ~done /\ done' = TRUE /\ PrintT(<<"ACCEPTED", Len(Trace)>>)
+Next == Done
 Spec == Init /\ [][Next]_vars
 =============================================================================
